@@ -1275,8 +1275,12 @@ func (rr *runRec) runningBarsClass() string {
 }
 
 // spinningLibraryFrame: the innermost library function of a goroutine that is
-// running or runnable with a library frame innermost (below runtime frames) in
-// all of five dumps 100 ms apart; "" if there is none.
+// running or runnable inside the library - a library frame innermost, or below
+// it only runtime and standard-library frames the library called (a loop around
+// bytes.Buffer.ReadBytes spins in the standard library most of the time) - in
+// all of five dumps 100 ms apart; "" if there is none. A goroutine whose
+// innermost frame outside runtime/standard library belongs to the harness (a
+// decorator or filler callback) is not judged.
 func spinningLibraryFrame() string {
 	count := map[string]int{}
 	for k := 0; k < 5; k++ {
@@ -1286,13 +1290,19 @@ func spinningLibraryFrame() string {
 				continue
 			}
 			for _, f := range g.Frames {
-				if strings.HasPrefix(f, "runtime.") || strings.HasPrefix(f, "created by") {
-					continue
+				if strings.HasPrefix(f, "created by") {
+					break
 				}
-				if strings.Contains(f, "github.com/vbauerster/mpb/v8") && !strings.Contains(f, ".vhook") {
-					seen[f] = true
+				if strings.HasPrefix(f, "main.") || strings.Contains(f, "verif/harness") {
+					break // harness code on top: its own business
 				}
-				break // only the innermost non-runtime frame counts
+				if strings.Contains(f, "github.com/vbauerster/mpb/v8") {
+					if !strings.Contains(f, ".vhook") {
+						seen[f] = true
+					}
+					break
+				}
+				// runtime or standard library frame: look further out
 			}
 		}
 		for f := range seen {
